@@ -120,6 +120,10 @@ type c16Run struct {
 	seq    int
 	fail   string
 	got    map[int][]string // drained payloads per connection
+	// early: what a connection had received when its own LeaveRoom returned (the client reads its queue at that
+	// moment); leftAt: rooms it has left by a direct LeaveRoom that returned, with the logical time of the return
+	early  map[int][]string
+	leftAt map[int]map[string]int
 }
 
 func (r *c16Run) tick() int { r.clock++; return r.clock }
@@ -145,6 +149,22 @@ func (r *c16Run) do(o c16Op) {
 		c.JoinRoom(o.R)
 	case "leave":
 		c.LeaveRoom(o.R)
+		// The client reads everything queued so far: whatever arrives for this room from now on was delivered to
+		// a connection that is not a member (unless it joins again).
+		if r.early == nil {
+			r.early, r.leftAt = map[int][]string{}, map[int]map[string]int{}
+		}
+		for n := 0; n < 1000; n++ {
+			idx, v, ok := vrt.Select(true, vrt.RecvCase(c.send))
+			if idx < 0 || !ok {
+				break
+			}
+			r.early[o.C] = append(r.early[o.C], string(vrt.Cast(c.send, v)))
+		}
+		if r.leftAt[o.C] == nil {
+			r.leftAt[o.C] = map[string]int{}
+		}
+		r.leftAt[o.C][o.R] = r.tick()
 	case "send":
 		ev.msg = "S:" + c.ID + ":" + tag
 		c.Send([]byte(ev.msg))
@@ -321,7 +341,32 @@ func (r *c16Run) checkQuiescent() {
 			if bad := r.judgeDelivery(c, m); bad != "" {
 				set("delivery: %s", bad)
 			}
+			// strict clause: queued after the connection's own LeaveRoom had returned (and no join of that
+			// room by the connection was invoked afterwards)
+			if strings.HasPrefix(m, "R:") {
+				room := strings.SplitN(m, ":", 3)[1]
+				if t, left := r.leftAt[i][room]; left {
+					rejoined := false
+					for _, e := range r.events {
+						if (e.op.K == "join" || e.op.K == "mjoin" || (e.op.K == "mev" && e.op.H == "join")) && e.op.C == i && e.op.R == room && (e.start > t || e.end == 0 || e.end > t) {
+							rejoined = true
+						}
+					}
+					if !rejoined {
+						set("delivery-after-leave: %s received room message %q after its LeaveRoom(%s) had returned", c.ID, m, room)
+					}
+				}
+			}
 		}
+	}
+	for i, msgs := range r.early {
+		c := r.conns[i]
+		for _, m := range msgs {
+			if bad := r.judgeDelivery(c, m); bad != "" {
+				set("delivery: %s", bad)
+			}
+		}
+		r.got[i] = append(append([]string{}, msgs...), r.got[i]...)
 	}
 }
 
